@@ -429,6 +429,16 @@ def _verify(contract, index, schema_mod, fs, res):
             raw.append((f"{contract.name}.raises.{listed[0]}.only_when", "exc", list(st1.pc), t.term, st1, exc.where))
         for ename, expr in contract.ensures:
             pass
+    # canary: `ensures False` must NOT be provable on every normally terminating path
+    dead = 0
+    for st1, flow in outs:
+        r_c, _ = _solve(relevant_axioms(axioms, st1.pc, z3.BoolVal(False)) + list(st1.pc), z3.BoolVal(False), 2000)
+        if r_c == z3.unsat:
+            dead += 1
+    res.vacuity["dead_normal_paths"] = dead
+    if outs and dead == len(outs):
+        raise SpecError("canary failed: every normally terminating path has an inconsistent path condition "
+                        "(contradictory requires / assumptions)")
     res.vacuity["normal_paths"] = normal_paths
     res.vacuity["exception_paths"] = len(sink)
     # aggregate by name
